@@ -477,6 +477,51 @@ def keyword_like_fields(ctx):
                               {"text": text, "error": lib.exc_sig(e)})
 
 
+def tagged_typedef_declarators(ctx):
+    """A typedef through the struct / union keyword whose name carries a pointer or array declarator: the tag names
+    the structure itself, the typedef'd name the pointer to it / the array of it, `struct tag` in a later field means
+    the structure, and the same holds for a structure that exists already."""
+    from dissect.cstruct.types.base import BaseArray
+    from dissect.cstruct.types.pointer import Pointer
+
+    for kw in ("struct", "union"):
+        for decl, kind in (("*ptag", "ptr"), ("arr[2]", "array"), ("* ptag", "ptr"), ("arr [ 2 ]", "array")):
+            for existing in (False, True):
+                name = "ptag" if kind == "ptr" else "arr"
+                if existing:
+                    text = f"{kw} tag {{ uint8 x; uint16 y; }};\ntypedef {kw} tag {decl};\n"
+                else:
+                    text = f"typedef {kw} tag {{ uint8 x; uint16 y; }} {decl};\n"
+                text += f"struct user {{ {kw} tag a; uint8 z; tag b; {name} c; }};\n"
+                ctx.evaluation(("tagged-typedef", kw, decl, existing))
+                ctx.cell("tagged-typedef-declarators")
+                det = {"text": text, "workload": "tagged-typedef-declarators"}
+                try:
+                    cs = lib.cstruct(pointer="uint16")
+                    cs.load(text)
+                    tag, named = cs.resolve("tag"), cs.resolve(name)
+                    size = 3 if kw == "struct" else 2
+                    facts = {
+                        "tag is the structure": isinstance(tag, type) and issubclass(tag, lib.Structure) and len(tag) == size
+                        and [f.name for f in tag.__fields__] == ["x", "y"],
+                        "name is the derived type": (issubclass(named, Pointer) if kind == "ptr" else
+                                                     issubclass(named, BaseArray) and named.num_entries == 2) and named.type is tag,
+                        "fields of the user": [f.type is tag for f in cs.user.__fields__[:1]] == [True] and cs.user.__fields__[2].type is tag
+                        and cs.user.__fields__[3].type is named,
+                        "size of the user": len(cs.user) == size + 1 + size + (2 if kind == "ptr" else 2 * size),
+                    }
+                except Exception as e:  # noqa: BLE001
+                    ctx.violation("aliases", f"tagged-typedef-with-declarator-rejected:{type(e).__name__}", dict(det, error=lib.exc_sig(e)))
+                    continue
+                bad = [k for k, ok in facts.items() if not ok]
+                if bad:
+                    ctx.violation("aliases", "tagged-typedef-with-declarator-binds-the-tag-or-the-name-to-the-wrong-type",
+                                  dict(det, failing=bad, typedefs=repr({k: getattr(v, "__name__", v) for k, v in cs.typedefs.items()
+                                                                       if k in ("tag", name)})))
+                else:
+                    ctx.event("tagged_typedef_declarators_checked")
+
+
 def enum_line_ends(ctx):
     """Enum members written one per line without commas (an extension the library supports): the same members whatever
     the line ends are (LF, CRLF, bare CR), with and without comments behind the members."""
@@ -538,8 +583,17 @@ def shared_names(ctx, rng, n):
 
         rec_block, idx_block = nested("record", "uint8"), nested("index", rng.choice(["uint8", "uint16"]))
         user_block = f"struct user {{ uint8 d[{a}]; uint8 e; }};\n"      # refers to the constant: comes after it
-        blocks = {"const": const_block, "enum": enum_block, "record": rec_block, "index": idx_block, "user": user_block}
-        owned = {"const": [], "enum": ["mode", "rec"], "record": ["record"], "index": ["index"], "user": ["user"]}
+        # a structure with a field of its own that is named like the constant and sizes an array (the same size text
+        # as in `user`): the field read before the array is meant, wherever the constant is defined
+        size_text = rng.choice([a, a, f"{a} * 2", f"({a})"])
+        user_block = user_block.replace(f"d[{a}]", f"d[{size_text}]")
+        shadow_block = f"struct shadow {{ uint8 {a}; char y[{size_text}]; uint8 tail; }};\n"
+        if rng.random() < 0.3:
+            shadow_block = f"struct shadow {{ struct {{ uint8 {a}; }}; char y[{size_text}]; uint8 tail; }};\n"
+        blocks = {"const": const_block, "enum": enum_block, "record": rec_block, "index": idx_block, "user": user_block,
+                  "shadow": shadow_block}
+        owned = {"const": [], "enum": ["mode", "rec"], "record": ["record"], "index": ["index"], "user": ["user"],
+                 "shadow": ["shadow"]}
         data = bytes(rng.randrange(1, 256) for _ in range(64))
 
         def facts(cs, names):
@@ -548,11 +602,12 @@ def shared_names(ctx, rng, n):
                 T = cs.resolve(nm)
                 f = [type_sig(T)]
                 if hasattr(T, "__fields__"):
-                    try:
-                        o = T(data)
-                        f += [lib.stable_repr(o), o.dumps()]
-                    except Exception as e:  # noqa: BLE001
-                        f.append(type(e).__name__)
+                    for d_ in (data, b"\x02" + data):
+                        try:
+                            o = T(d_)
+                            f += [lib.stable_repr(o), o.dumps()]
+                        except Exception as e:  # noqa: BLE001
+                            f.append(type(e).__name__)
                 out[nm] = repr(f)
             return out
 
@@ -630,6 +685,8 @@ def run(ctx):
         enum_line_ends(ctx)
     if ctx.shard == 1:
         keyword_like_fields(ctx)
+    if ctx.shard == 3:
+        tagged_typedef_declarators(ctx)
     if ctx.shard % 4 == 2:
         shared_names(ctx, ctx.rng("shared-names"), 8 if not ctx.thorough else 60)
     for i in range(N_CASES[ctx.tier]):
@@ -652,6 +709,7 @@ def replay(ctx, detail):
         keyword_like_fields(ctx)
         string_constants(ctx)
         shared_names(ctx, ctx.rng("shared-names"), 8)
+        tagged_typedef_declarators(ctx)
         return
     try:
         cs = lib.cstruct(endian=cfgd["endian"])
